@@ -35,7 +35,7 @@ def neq(S, a, b, tol=None):
     if S.symbolic or tol is None:
         if S.symbolic and z3.is_expr(a) and z3.is_expr(b):
             # polynomial normal form first: identical polynomials need no solver work
-            d = z3.simplify(a - b, som=True, mul_to_power=True)
+            d = K.reduce_consts(a - b)
             if z3.is_rational_value(d) and d.numerator_as_long() == 0:
                 return z3.BoolVal(False)
             return d != 0
